@@ -18,9 +18,13 @@ Definition H_live (d : Z) : Prop := 0 <= d /\ d <= (lock_stale_factor - 1) * loc
    interval is positive, and the staleness factor leaves room for a latency *)
 Lemma repo_checks d : checks (cfg_repo d) = true.
 Proof. reflexivity. Qed.
+(* ... and an empty lock file counts as stale only when it was not modified within
+   factor * interval (the second fix to the empty-file rule) *)
+Lemma repo_guard d : guard (cfg_repo d) = true.
+Proof. reflexivity. Qed.
 Lemma repo_good d : H_live d -> good_cfg (cfg_repo d).
 Proof.
-  unfold H_live, good_cfg, cfg_repo, cfg_repo_eps. cbn [interval delta factor].
+  unfold H_live, good_cfg, cfg_repo, cfg_repo_eps. cbn [interval delta factor eps].
   unfold lock_stale_factor, lock_freshness_interval. lia.
 Qed.
 
@@ -29,7 +33,9 @@ Qed.
     starts the heartbeat; the heartbeat sleeps lockFreshnessInterval, then opens, compares
     Created, truncates, writes, syncs in this order; Unlock removes the lock file by name;
     every select in Lock returns ctx.Err() on ctx.Done(); the stale branch removes the file
-    by name and retries; staleness is judged on Updated, or Created when Updated is zero. *)
+    by name and retries; staleness is judged on Updated, or Created when Updated is zero; the
+    empty-read count is reset by a successful read and an empty file is given up only when
+    its modification time is older than the staleness threshold. *)
 Theorem C08_code_shape_as_modelled :
   lock_create_is_excl = true /\ lock_create_starts_heartbeat = true /\
   lock_hb_period = lock_freshness_interval /\
@@ -37,22 +43,25 @@ Theorem C08_code_shape_as_modelled :
   lock_unlock_removes_lock_file = true /\
   (lock_selects_with_ctx = lock_selects /\ 0 < lock_selects) /\
   lock_stale_branch_removes_and_retries = true /\ lock_uses_one_file_name = true /\
-  lock_stale_ref_updated_else_created = true /\ lock_empty_count_resets = true.
+  lock_stale_ref_updated_else_created = true /\ lock_empty_count_resets = true /\
+  lock_empty_mtime_guard = true /\ lock_empty_mtime_factor = lock_stale_factor /\
+  lock_undecodable_as_empty = true.
 Proof. repeat split; reflexivity. Qed.
 Print Assumptions C08_code_shape_as_modelled.
 
 (** Mutual exclusion.  For any number of threads in any number of processes and every
     interleaving of their steps, as long as every holder is alive - no process is killed
-    while one of its threads has created or holds the lock file; kills of waiters and of
-    processes that released earlier are allowed -, live processes run their heartbeats
-    within [d] of the due time (built into [LTick]) and no waiter reaches the empty-retry
-    limit on the empty file of a live holder ([live_ok]): at most one thread holds the lock,
-    however long it is held.  (That the last hypothesis cannot be dropped, even for the
-    repaired code on a healthy disk: [C08_mutex_refuted_creation_gaps] below.) *)
+    while one of its threads has created or holds the lock file ([live_ok]); kills of waiters
+    and of processes that released earlier are allowed - and live processes are not stalled
+    (H-live, built into [LTick]: a heartbeat runs within [d] of its due time, a creator
+    writes its metadata within [d] of the create, a heartbeat rewrites the file within eps
+    (0 here) of truncating it): at most one thread holds the lock, however long it is held.
+    No hypothesis about empty reads is needed any more: with the modification-time guard a
+    waiter never gives up on the empty file of a live owner ([GapInv]). *)
 Theorem C08_mutex_no_crash : forall d, H_live d -> forall s t1 t2 i1 i2,
   reach (cfg_repo d) (live_ok (cfg_repo d)) init s ->
   cs s t1 = CHolding i1 -> cs s t2 = CHolding i2 -> t1 = t2.
-Proof. intros d Hd. exact (mutex_no_crash (cfg_repo d) (repo_checks d) (repo_good d Hd)). Qed.
+Proof. intros d Hd. exact (mutex_no_crash (cfg_repo d) (repo_checks d) (repo_guard d) (repo_good d Hd)). Qed.
 Print Assumptions C08_mutex_no_crash.
 
 (** A waiter acquires only after the holder has released: a create succeeds only in a
@@ -61,8 +70,26 @@ Theorem C08_waiter_after_release : forall d, H_live d -> forall s t s' ec i,
   reach (cfg_repo d) (live_ok (cfg_repo d)) init s ->
   step (cfg_repo d) s (LTryCreate t) = Some s' -> cs s' t = CCreated ec i ->
   forall t' j, cs s t' <> CHolding j.
-Proof. intros d Hd. exact (waiter_after_release (cfg_repo d) (repo_checks d) (repo_good d Hd)). Qed.
+Proof. intros d Hd. exact (waiter_after_release (cfg_repo d) (repo_checks d) (repo_guard d) (repo_good d Hd)). Qed.
 Print Assumptions C08_waiter_after_release.
+
+(** While every owner lives no Lock call ever judges the lock file stale or removes it ... *)
+Theorem C08_stale_removal_needs_dead_owner : forall d, H_live d -> forall s t ec,
+  reach (cfg_repo d) (live_ok (cfg_repo d)) init s -> cs s t <> CStale ec.
+Proof. intros d Hd. exact (stale_removal_needs_dead_owner (cfg_repo d) (repo_checks d) (repo_guard d) (repo_good d Hd)). Qed.
+Print Assumptions C08_stale_removal_needs_dead_owner.
+
+(** ... but after a holder's death the documented race exists (repaired code, heartbeats on
+    time): two waiters both judge the dead file stale; the first removes it, creates its own
+    and holds; the second's os.Remove of the NAME then removes the first one's live file, and
+    it holds too.  Mutual exclusion among the live contenders is lost after a recovery. The
+    window is the few microseconds between a waiter's read and its remove; the comment above
+    FileStorage accepts it ("imperfect mutual exclusion if locks become stale"). *)
+Theorem C08_mutex_after_crash_refuted_stale_race :
+  exists s i1 i2, run cfg_resets init stale_race_run = Some s /\
+    cs s 0%nat = CDead /\ cs s 1%nat = CHolding i1 /\ cs s 2%nat = CHolding i2 /\ i1 <> i2.
+Proof. exact mutex_after_crash_refuted_stale_race. Qed.
+Print Assumptions C08_mutex_after_crash_refuted_stale_race.
 
 Theorem C08_holder_leaves_only_by_unlock : forall c s l s' t i, step c s l = Some s' ->
   cs s t = CHolding i -> cs s' t <> CHolding i -> l = LUnlock t \/ exists p, l = LKill p.
@@ -126,23 +153,47 @@ Print Assumptions C08_stale_recovers.
 
 (** ... and when the holder died while the file was empty - killed between the O_EXCL
     create and the metadata write ([owner]: CCreated), or in a heartbeat's truncate gap -
-    it stays empty and every read counts towards the retry limit, after which it is treated
-    as stale *)
+    it stays empty with its modification time frozen, and a read by a waiter that has
+    counted to the retry limit treats it as stale as soon as more than factor * interval
+    has passed since that modification (before, the waiter looks again every 250 ms) *)
 Theorem C08_empty_recovers : forall d, H_live d -> forall s0 t i s ls s',
   reach (cfg_repo d) any_label init s0 ->
   owner s0 t i -> file s0 = Some i -> content s0 i = FEmpty ->
   step (cfg_repo d) s0 (LKill (cproc s0 t)) = Some s ->
   run (cfg_repo d) s ls = Some s' -> file s' = Some i ->
-  content s' i = FEmpty /\
+  content s' i = FEmpty /\ mtime s' i = mtime s0 i /\
   forall w ec, cs s' w = CExists ec ->
     exists s1, step (cfg_repo d) s' (LOpenRead w) = Some s1 /\
-      cs s1 w = if (S ec <? retries (cfg_repo d))%nat then CSleep (S ec) (now s' + esleep (cfg_repo d)) else CStale (S ec).
+      cs s1 w = if (S ec <? retries (cfg_repo d))%nat ||
+                   negb (lock_stale_factor * lock_freshness_interval <? now s' - mtime s0 i)
+                then CSleep (S ec) (now s' + esleep (cfg_repo d)) else CStale (S ec).
 Proof.
   intros d Hd s0 t i s ls s' R.
   apply (empty_recovers (cfg_repo d) (repo_checks d) (repo_good d Hd)).
   exact (HBInv_reach (cfg_repo d) (repo_checks d) (repo_good d Hd) any_label s0 R).
 Qed.
 Print Assumptions C08_empty_recovers.
+
+(** A lock file whose contents cannot be decoded (cut off in the middle of a write, corrupt)
+    is handled like an empty one: every read counts, and past the retry limit it is treated
+    as stale once it has not been modified for factor * interval - Lock no longer returns an
+    error that nobody can recover from. *)
+Theorem C08_undecodable_like_empty : forall d s w ec i,
+  file s = Some i -> content s i = FGarbage -> cs s w = CExists ec ->
+  exists s1, step (cfg_repo d) s (LOpenRead w) = Some s1 /\
+    cs s1 w = if (S ec <? retries (cfg_repo d))%nat ||
+                 negb (lock_stale_factor * lock_freshness_interval <? now s - mtime s i)
+              then CSleep (S ec) (now s + esleep (cfg_repo d)) else CStale (S ec).
+Proof.
+  intros d s w ec i Hf Hc Hw. cbn [step]. rewrite Hw, Hf, Hc. cbn [undec cfg_repo cfg_repo_eps].
+  change lock_undecodable_as_empty with true. cbn iota.
+  match goal with |- context [if ?b then _ else _] => destruct b eqn:E end;
+    eexists; (split; [reflexivity|]); cbn [cs set_cs]; rewrite upd_eq;
+    cbn [guard retries factor interval cfg_repo cfg_repo_eps] in E |- *;
+    change (lock_empty_mtime_guard && (lock_empty_mtime_factor =? lock_stale_factor)) with true in E;
+    cbn [andb] in E; rewrite E; reflexivity.
+Qed.
+Print Assumptions C08_undecodable_like_empty.
 
 (** The bounded time: in every state of every run (kills included) a Lock call that sleeps is
     due to look at the lock file again within max(fileLockPollInterval, empty-retry sleep) =
@@ -181,19 +232,32 @@ Theorem C08_mutex_refuted_empty_count :
 Proof. exact mutex_refuted_empty_count. Qed.
 Print Assumptions C08_mutex_refuted_empty_count.
 
-(** ... and even for the repaired code ([cfg_resets]: both fixes, healthy disk) the
-    hypothesis "no waiter gives up on an empty live file" of [C08_mutex_no_crash] cannot be
-    dropped: eight processes take and release the lock 250 ms apart and a waiter reads the
-    file each time between a taker's O_EXCL create and its metadata write - eight
-    consecutive empty reads, nobody killed, within 2 s - and removes the file of the live
-    eighth taker: two holders.  (Eight coincidences with gaps of microseconds: not
-    reproduced on the real code, not treated as a finding; it delimits what is proved.) *)
+(** Why the modification-time guard: for the code with the first two fixes only
+    ([cfg_resets]: no guard, healthy disk) mutual exclusion needed the extra hypothesis "no
+    waiter gives up on an empty live file", and that can fail without anybody being dead:
+    eight processes take and release the lock 250 ms apart and a waiter reads the file each
+    time between a taker's O_EXCL create and its metadata write - eight consecutive empty
+    reads within 2 s - and removes the file of the live eighth taker: two holders. *)
 Theorem C08_mutex_refuted_creation_gaps :
   exists s i1 i2, run cfg_resets init creation_gaps_run = Some s /\
     (forall p, ~ In (LKill p) creation_gaps_run) /\
     cs s 8%nat = CHolding i1 /\ cs s 0%nat = CHolding i2 /\ i1 <> i2 /\ now s < 2 * sec.
 Proof. exact mutex_refuted_creation_gaps. Qed.
 Print Assumptions C08_mutex_refuted_creation_gaps.
+
+(** ... and realistically on slow storage (same code, [cfg_slow]: no guard): ONE truncate ->
+    write gap of up to 2 s (longer than the eight retries, 250 ms apart) lets a waiter read the
+    live holder's file empty eight times in a row within that gap.  Heartbeat on time, nobody
+    killed: two holders.  Reproduced on the real code before the guard was added (scenario
+    [slow-truncate-gap-longer-than-retries], 2.3 s gap injected with strace); with the guard
+    the scenario passes and [C08_mutex_no_crash] covers it (eps <= factor * interval). *)
+Theorem C08_mutex_refuted_long_write_gap :
+  exists s i1 i2, run cfg_slow init long_gap_run = Some s /\
+    (forall p, ~ In (LKill p) long_gap_run) /\
+    cs s 0%nat = CHolding i1 /\ cs s 1%nat = CHolding i2 /\ i1 <> i2 /\
+    now s < 5 * sec + eps cfg_slow.
+Proof. exact mutex_refuted_long_write_gap. Qed.
+Print Assumptions C08_mutex_refuted_long_write_gap.
 
 (** Distinct names never block each other — for names with different Safe images: their
     lock files are different files, and steps on one lock file neither change nor enable
@@ -255,21 +319,9 @@ Proof.
     apply IH. econstructor; eauto.
 Qed.
 Definition live_okb (c : config) (s : state) (l : label) : bool :=
-  match l with
-  | LKill _ => false
-  | LOpenRead t =>
-      match cs s t, file s with
-      | CExists ec, Some i => match content s i with FEmpty => (S ec <? retries c)%nat | _ => true end
-      | _, _ => true
-      end
-  | _ => true
-  end.
+  match l with LKill _ => false | _ => true end.
 Lemma live_okb_sound c s l : live_okb c s l = true -> live_ok c s l.
-Proof.
-  intros H. split.
-  - intros (p & t & i & -> & _). discriminate.
-  - intros (t & ec & i & -> & Hc & Hf & Hct & Hr). unfold live_okb in H. rewrite Hc, Hf, Hct in H. congruence.
-Qed.
+Proof. intros H (p & t & i & -> & _). discriminate. Qed.
 
 Example C08_live_run_nontrivial :
   exists s, reach (cfg_repo d2) (live_ok (cfg_repo d2)) init s /\
@@ -320,13 +372,11 @@ Proof.
     intros [|[|t]]; cbn; intros H; try reflexivity; discriminate. }
   destruct F as (F0 & (ec1 & u1 & F1) & Fp).
   exists (State (now s) (file s) (content s) (nexti s) (kill_cs 1%nat (cproc s) (cs s)) (cproc s) (tids s)
-                (kill_hb 1%nat (hb s)) (lastcreate s)).
+                (kill_hb 1%nat (hb s)) (lastcreate s) (mtime s)).
   split.
   - apply (reach_step _ _ init s (LKill 1%nat) _ R); [|reflexivity].
-    split.
-    + intros (p & t & i & Ep & Ho & Hp). injection Ep; intros <-.
-      apply Fp in Hp. subst t. destruct Ho as [[ec Ho]|Ho]; congruence.
-    + intros (t & ec & i & Ep & _). discriminate.
+    intros (p & t & i & Ep & Ho & Hp). injection Ep; intros <-.
+    apply Fp in Hp. subst t. destruct Ho as [[ec Ho]|Ho]; congruence.
   - cbn [cs]. split.
     + rewrite kill_cs_other; [exact F0|]. intros H. apply Fp in H. discriminate.
     + apply kill_cs_dead; [|congruence]. clear - E. revert E. vm_compute. intros E; injection E; intros <-. reflexivity.
@@ -356,3 +406,28 @@ Proof.
   split; [vm_compute; reflexivity|].
   split; vm_compute; reflexivity.
 Qed.
+
+(** the hypotheses of [C08_empty_recovers] are met: a creator is killed between its O_EXCL
+    create and the metadata write; 10 s and a bit later a waiter that has read the empty file
+    eight times is about to read it again *)
+Definition demo_creator : list label := [LStart 0 0; LTryCreate 0; LStart 1 1; LTryCreate 1]%nat.
+Example C08_empty_recovery_hypotheses_satisfiable :
+  exists s0 s, reach_run (cfg_repo d2) (fun _ _ => true) init demo_creator = Some s0 /\
+    owner s0 0%nat 0%nat /\ file s0 = Some 0%nat /\ content s0 0%nat = FEmpty /\
+    step (cfg_repo d2) s0 (LKill (cproc s0 0%nat)) = Some s /\
+    file s = Some 0%nat /\ cs s 1%nat = CExists 0.
+Proof.
+  eexists. eexists.
+  split; [vm_compute; reflexivity|].
+  split; [left; exists 0%nat; vm_compute; reflexivity|].
+  split; [vm_compute; reflexivity|].
+  split; [vm_compute; reflexivity|].
+  split; [vm_compute; reflexivity|].
+  split; vm_compute; reflexivity.
+Qed.
+
+(** ... and of [C08_undecodable_like_empty]: a pre-made lock file with garbage in it *)
+Example C08_undecodable_hypotheses_satisfiable :
+  exists s, run (cfg_repo d2) (init_state (Some FGarbage) (-1) (-30000000000)) [LStart 0 0; LTryCreate 0]%nat = Some s /\
+    file s = Some 0%nat /\ content s 0%nat = FGarbage /\ cs s 0%nat = CExists 0.
+Proof. eexists. split; [vm_compute; reflexivity|]. repeat split. Qed.
